@@ -13,7 +13,7 @@ RULE = {"C19": "four helpers, each driven by random sample sequences under the p
                "(levels on both sides of the bypass level), SimpleWatchdog (reset/enable/setTimeout/isExpired/printIfExpired, "
                "timeouts n/1e6 for whole-microsecond n, landings exactly on the timeout).  Non-trivial = sequence with >=2 "
                "state changes / True results / passed low-level records / expiry flips; distinct = hash of the sequence."}
-REQUIRED = {"C19": {"toggle-edge-flip": 2000, "toggle-held-no-flip": 2000, "toggle-on-off-pair": 500, "toggle-real-joystick-case": 20, "toggle-nonbool-levels": 50,
+REQUIRED = {"C19": {"toggle-edge-flip": 2000, "toggle-held-no-flip": 2000, "toggle-on-off-pair": 500, "toggle-real-joystick-case": 20, "toggle-two-objects-on-one-button": 100, "debouncer-two-objects-on-one-button": 50, "toggle-nonbool-levels": 50,
                     "toggle-debounce-flip": 300, "toggle-debounce-suppressed-edge": 100,
                     "debouncer-true": 1000, "debouncer-suppressed-press": 1000, "debouncer-required-true": 300, "debouncer-exact-strict": 30,
                     "filter-bypass-pass": 1000, "filter-low-pass": 500, "filter-low-suppressed": 1000, "filter-through-real-logger": 50,
@@ -110,14 +110,20 @@ def run_toggle(acc, case):
         def set_level(v):
             joy.level = v
     set_level(False)
-    t = Toggle(joy, btn) if period is None else Toggle(joy, btn, period / 1e6 if not case.get("period_int") else period // 1000000)
-    T = False          # model state
-    prev = False       # previous sampled raw level
-    last_flip = None
-    flips = 0
-    first_edge_done = False
+    def mk():
+        return Toggle(joy, btn) if period is None else Toggle(joy, btn, period / 1e6 if not case.get("period_int") else period // 1000000)
+    # one Toggle, or two built for the very same joystick object, button and period and sampled in turns: each is judged
+    # against the samples it took itself
+    toggles = [mk(), mk()] if case.get("twin") else [mk()]
+    models = [{"T": False, "prev": False, "last_flip": None, "flips": 0, "first_edge_done": False} for _ in toggles]
     acc.evaluations += 1
-    for i, (adv, level, accessor) in enumerate(case["samples"]):
+    if case.get("twin"):
+        acc.ev("toggle-two-objects-on-one-button")
+    for i, smp in enumerate(case["samples"]):
+        adv, level, accessor = smp[:3]
+        which = smp[3] if len(smp) > 3 and case.get("twin") else 0
+        t, M = toggles[which], models[which]
+        tag = f"toggle #{which} of 2, " if case.get("twin") else ""
         if adv:
             step(adv)
         set_level(level)
@@ -134,53 +140,53 @@ def run_toggle(acc, case):
         if type(v) is not bool:
             acc.violation("C19/toggle-type", f"accessor {accessor} returned {v!r}", case, {"i": i})
             return
-        edge = level and not prev
+        edge = level and not M["prev"]
         if period is None:
             if edge:
-                T = not T
-                flips += 1
+                M["T"] = not M["T"]
+                M["flips"] += 1
                 acc.ev("toggle-edge-flip")
             elif level:
                 acc.ev("toggle-held-no-flip")
-            if v is not T:
+            if v is not M["T"]:
                 acc.violation("C19/toggle-state",
-                              f"sample {i} ({accessor}, level={level}, previous level={prev}): toggle state {v}, expected {T}", case, {"i": i})
+                              f"{tag}sample {i} ({accessor}, level={level}, previous level it sampled={M['prev']}): toggle state {v}, expected {M['T']}", case, {"i": i})
                 return
         else:
-            changed = v is not T
+            changed = v is not M["T"]
             if changed:
                 if not edge:
                     acc.violation("C19/toggle-debounce-change-without-edge",
-                                  f"sample {i}: debounced toggle changed while the button was {'held' if level else 'released'}", case, {"i": i})
+                                  f"{tag}sample {i}: debounced toggle changed while the button was {'held' if level else 'released'} "
+                                  f"(no released-to-pressed edge among the samples it took)", case, {"i": i})
                     return
-                if last_flip is not None:
-                    gap = now - last_flip
-                    exact = case.get("grid") and period % GRID == 0
-                    if gap < period or (gap == period and False):
+                if M["last_flip"] is not None:
+                    gap = now - M["last_flip"]
+                    if gap < period:
                         acc.violation("C19/toggle-debounce-spacing",
-                                      f"two toggle changes {gap} us apart with a debounce period of {period} us", case, {"i": i})
+                                      f"{tag}two toggle changes {gap} us apart with a debounce period of {period} us", case, {"i": i})
                         return
-                T = v
-                last_flip = now
-                flips += 1
+                M["T"] = v
+                M["last_flip"] = now
+                M["flips"] += 1
                 acc.ev("toggle-debounce-flip")
             elif edge:
-                if not first_edge_done:
-                    acc.violation("C19/toggle-debounce-first-edge", f"sample {i}: first press ever did not change the debounced toggle", case, {"i": i})
+                if not M["first_edge_done"]:
+                    acc.violation("C19/toggle-debounce-first-edge", f"{tag}sample {i}: first press ever did not change the debounced toggle", case, {"i": i})
                     return
                 acc.ev("toggle-debounce-suppressed-edge")
             if edge:
-                first_edge_done = True
+                M["first_edge_done"] = True
         # on is the negation of off for the state after the same sample (button unchanged, clock unchanged)
         if i % 7 == 0:
             on, off = t.on, t.off
             acc.checks += 1
             acc.ev("toggle-on-off-pair")
-            if on is off or on is not T:
-                acc.violation("C19/toggle-on-off", f"sample {i}: on={on!r} off={off!r} toggle={T}", case, {"i": i})
+            if on is off or on is not M["T"]:
+                acc.violation("C19/toggle-on-off", f"{tag}sample {i}: on={on!r} off={off!r} toggle={M['T']}", case, {"i": i})
                 return
-        prev = level
-    if flips >= 2:
+        M["prev"] = level
+    if sum(m["flips"] for m in models) >= 2:
         acc.nontrivial.add(stable_hash(case))
     if real:
         acc.ev("toggle-real-joystick-case")
@@ -198,13 +204,23 @@ def run_debouncer(acc, case):
     joy = FakeJoy()
     period = case["period_us"]
     pv = period // 1000000 if case.get("period_int") else period / 1e6
-    d = ButtonDebouncer(joy, 2, pv) if not case.get("via_setter") else ButtonDebouncer(joy, 2)
-    if case.get("via_setter"):
-        d.set_debounce_period(pv)
-    last_true = None
-    trues = 0
+    def mk():
+        d_ = ButtonDebouncer(joy, 2, pv) if not case.get("via_setter") else ButtonDebouncer(joy, 2)
+        if case.get("via_setter"):
+            d_.set_debounce_period(pv)
+        return d_
+    # one debouncer, or two on the same joystick object / button / period sampled in turns, each judged on its own results
+    objs = [mk(), mk()] if case.get("twin") else [mk()]
+    st = [{"last_true": None, "trues": 0} for _ in objs]
+    if case.get("twin"):
+        acc.ev("debouncer-two-objects-on-one-button")
     acc.evaluations += 1
-    for i, (adv, level, accessor) in enumerate(case["samples"]):
+    for i, smp in enumerate(case["samples"]):
+        adv, level, accessor = smp[:3]
+        which = smp[3] if len(smp) > 3 and case.get("twin") else 0
+        d, S = objs[which], st[which]
+        last_true = S["last_true"]
+        tag = f"debouncer #{which} of 2, " if case.get("twin") else ""
         if adv:
             step(adv)
         joy.level = level
@@ -217,38 +233,37 @@ def run_debouncer(acc, case):
         strict = bool(grid) and period % GRID == 0 and now % GRID == 0 and (last_true is None or last_true % GRID == 0)
         if v:
             if not level:
-                acc.violation("C19/debouncer-true-unpressed", f"sample {i}: True although the button is not pressed", case, {"i": i})
+                acc.violation("C19/debouncer-true-unpressed", f"{tag}sample {i}: True although the button is not pressed", case, {"i": i})
                 return
             if last_true is not None:
                 gap = now - last_true
                 if gap < period or (gap == period and strict):
-                    acc.violation("C19/debouncer-spacing", f"sample {i}: two True results {gap} us apart, period {period} us", case, {"i": i})
+                    acc.violation("C19/debouncer-spacing", f"{tag}sample {i}: two True results {gap} us apart, period {period} us", case, {"i": i})
                     return
                 if gap == period:
                     acc.ev("debouncer-tie-accepted")
-            last_true = now
-            trues += 1
+            S["last_true"] = now
+            S["trues"] += 1
             acc.ev("debouncer-true")
+            if S["trues"] >= 2:
+                acc.ev("debouncer-required-true")
         else:
             if level:
                 since = now - last_true if last_true is not None else None
                 if last_true is None:
                     # nothing is promised relative to a non-existent last True while FPGA time <= period
                     if now > period:
-                        acc.violation("C19/debouncer-missed-press", f"sample {i}: pressed, never True before, FPGA time {now} us > period {period} us, got False", case, {"i": i})
+                        acc.violation("C19/debouncer-missed-press", f"{tag}sample {i}: pressed, never True before, FPGA time {now} us > period {period} us, got False", case, {"i": i})
                         return
                     acc.ev("debouncer-dont-care-before-first-true")
                 elif since > period:
-                    acc.violation("C19/debouncer-missed-press", f"sample {i}: pressed {since} us after the last True (period {period} us) but got False", case, {"i": i})
+                    acc.violation("C19/debouncer-missed-press", f"{tag}sample {i}: pressed {since} us after the last True (period {period} us) but got False", case, {"i": i})
                     return
                 else:
                     acc.ev("debouncer-suppressed-press")
                     if since == period and strict:
                         acc.ev("debouncer-exact-strict")
-        if v and level and last_true == now:
-            if trues >= 2:
-                acc.ev("debouncer-required-true")
-    if trues >= 2:
+    if sum(x["trues"] for x in st) >= 2:
         acc.nontrivial.add(stable_hash(case))
 
 
@@ -432,6 +447,19 @@ def run_watchdog(acc, case):
 
 
 # ----------------------------------------------------------------------------- generation
+def _maybe_twin(rng, c):
+    """Sometimes two Toggle objects watch the same button (e.g. two components each keep their own)."""
+    if rng.random() < 0.3:
+        c["twin"] = True
+        runs = rng.random() < 0.5
+        w = 0
+        for s in c["samples"]:
+            if rng.random() < (0.15 if runs else 0.5):
+                w = 1 - w
+            s.append(w)
+    return c
+
+
 def gen_case(rng, kind):
     grid = rng.random() < 0.35
     if kind in ("toggle", "toggle_real"):
@@ -441,11 +469,12 @@ def gen_case(rng, kind):
             c["real"] = True
             c["stick"] = rng.randrange(0, 6)
             c["samples"] = c["samples"][:40]
+        _maybe_twin(rng, c)
         return c
     if kind == "toggle_db":
         p = GRID * rng.choice([1, 4, 16, 32, 64]) if grid else rng.choice([500000, 100000, 20000, 250000, rng.randrange(1, 1000000)])
-        return {"kind": "toggle", "grid": grid, "period_us": p, "period_int": p % 1000000 == 0 and rng.random() < 0.5,
-                "samples": gen_samples(rng, rng.choice([40, 120, 300]), grid)}
+        return _maybe_twin(rng, {"kind": "toggle", "grid": grid, "period_us": p, "period_int": p % 1000000 == 0 and rng.random() < 0.5,
+                                 "samples": gen_samples(rng, rng.choice([40, 120, 300]), grid)})
     if kind == "debouncer":
         p = GRID * rng.choice([1, 4, 16, 32, 64]) if grid else rng.choice([500000, 100000, 20000, 1000000, rng.randrange(1, 1000000)])
         samples = gen_samples(rng, rng.choice([40, 120, 300]), grid)
@@ -453,8 +482,8 @@ def gen_case(rng, kind):
             s[1] = s[1] or rng.random() < 0.5        # mostly pressed: exercises the rate limit
             if rng.random() < 0.15:
                 s[0] = p if rng.random() < 0.6 else p + rng.choice([-1, 1]) if not grid else p   # land on the period
-        return {"kind": "debouncer", "grid": grid, "period_us": p, "period_int": p % 1000000 == 0 and rng.random() < 0.5,
-                "via_setter": rng.random() < 0.3, "samples": samples}
+        return _maybe_twin(rng, {"kind": "debouncer", "grid": grid, "period_us": p, "period_int": p % 1000000 == 0 and rng.random() < 0.5,
+                                 "via_setter": rng.random() < 0.3, "samples": samples})
     if kind == "filter":
         import logging
         period = rng.choice([0.5, 1.0, 3, 0.25, 2.0, 0.125])
